@@ -20,6 +20,7 @@ import (
 	"strings"
 	"sync"
 	"sync/atomic"
+	"time"
 
 	"github.com/ProtonMail/gluon/imap"
 	"github.com/ProtonMail/gluon/store"
@@ -49,6 +50,7 @@ type h struct {
 	other store.Store // onDiskStore(other pass) on the same directory
 	cases []string
 	nid   int
+	sit   situation // what is being done right now (for the watchdog)
 }
 
 func (x *h) newID() imap.InternalMessageID {
@@ -128,12 +130,21 @@ func storedSize(c []byte) int { return len(compressFrame(c)) - 7 - 4 - 4 }
 
 // alignedContent builds a content whose LZ4 frame has block boundaries exactly at blockSz*1 .. blockSz*k and continues
 // after the last one.  Returns nil if the construction does not succeed (it is deterministic for a seed).
-func (x *h) alignedContent(k int) []byte {
+func (x *h) alignedContent(k int) []byte { return x.alignedContentEx(k, true) }
+
+// exactFrameContent builds a content (a multiple of 64 KiB) whose whole LZ4 frame - header, blocks, the empty block the
+// writer emits for such a length, end mark - is exactly k*blockSz bytes: every sealed block of its file is a full one.
+func (x *h) exactFrameContent(k int) []byte { return x.alignedContentEx(k, false) }
+
+func (x *h) alignedContentEx(k int, tail bool) []byte {
 	rng := x.ctx.Rng
 	var d []byte
 	off := 7
 	for j := 1; j <= k; j++ {
 		target := j * blockSz
+		if !tail && j == k {
+			target -= 8 // empty block (4) + end mark (4)
+		}
 		for target-off > 2*65540 {
 			d = append(d, chunk64(rng.Int63(), 65536)...)
 			off += 65540
@@ -177,10 +188,16 @@ func (x *h) alignedContent(k int) []byte {
 			return nil
 		}
 	}
-	tail := make([]byte, 70000)
-	rng.Read(tail[:30000])
-	copy(tail[30000:], []byte("TAIL-OF-THE-MESSAGE"))
-	d = append(d, tail...)
+	if !tail {
+		if len(compressFrame(d)) != k*blockSz {
+			return nil
+		}
+		return d
+	}
+	tl := make([]byte, 70000)
+	rng.Read(tl[:30000])
+	copy(tl[30000:], []byte("TAIL-OF-THE-MESSAGE"))
+	d = append(d, tl...)
 	// verify
 	b := lz4Bounds(compressFrame(d))
 	for j := 1; j <= k; j++ {
@@ -417,6 +434,9 @@ func (x *h) corruptAndCheck(id imap.InternalMessageID, d []byte, kind string, al
 		caseNo++
 		canon := fmt.Sprintf("%s where=%s aligned=%s", c.Kind, c.Where, aligned)
 		x.ctx.Current(canon, map[string]interface{}{"size": len(d), "content": kind, "corruption": c})
+		x.sit = situation{Scenario: "damaged file", Damage: fmt.Sprintf("%s where=%s aligned=%s", c.Kind, c.Where, aligned),
+			Input: map[string]interface{}{"content_size": len(d), "content_kind": kind, "compressed_len": clen, "file_size": len(orig), "corruption": c, "seed": x.ctx.Seed},
+			File:  x.path(id)}
 		var got []byte
 		var gerr error
 		if c.Kind == "otherpass" {
@@ -496,6 +516,8 @@ func (x *h) craftedPrefix(gcm cipher.AEAD, d []byte, kind string) error {
 		if err := os.WriteFile(x.path(id), f, 0o600); err != nil {
 			return err
 		}
+		x.sit = situation{Scenario: "crafted frame prefix", Damage: "frame-prefix cut=" + c.w,
+			Input: map[string]interface{}{"content_size": len(d), "content_kind": kind, "frame_len": len(frame), "q": c.q, "seed": x.ctx.Seed}, File: x.path(id)}
 		got, gerr := x.st.Get(id)
 		obs := classify(d, got, gerr)
 		res.Evaluations++
@@ -522,12 +544,15 @@ func runC09(ctx *common.Ctx) error {
 	}
 	defer os.RemoveAll(dir)
 	x := &h{ctx: ctx, dir: filepath.Join(dir, "store"), pass: []byte("passphrase-one")}
-	if x.st, err = store.NewOnDiskStore(x.dir, x.pass); err != nil {
+	rawSt, err := store.NewOnDiskStore(x.dir, x.pass)
+	if err != nil {
 		return err
 	}
-	if x.other, err = store.NewOnDiskStore(x.dir, []byte("passphrase-two")); err != nil {
+	rawOther, err := store.NewOnDiskStore(x.dir, []byte("passphrase-two"))
+	if err != nil {
 		return err
 	}
+	x.st, x.other = x.watch(rawSt, "on-disk"), x.watch(rawOther, "on-disk (other passphrase)")
 	gcm, err := store.NewCipher(x.pass)
 	if err != nil {
 		return err
@@ -560,6 +585,7 @@ func runC09(ctx *common.Ctx) error {
 			id := x.newID()
 			canon := fmt.Sprintf("roundtrip size=%d content=%s", n, k)
 			ctx.Current(canon, map[string]interface{}{"size": n, "content": k})
+			x.sit = situation{Scenario: canon, Input: map[string]interface{}{"content_size": n, "content_kind": k, "seed": ctx.Seed}, File: x.path(id)}
 			if err := x.st.Set(id, bytes.NewReader(d)); err != nil {
 				res.Fail(canon+" set-error", err.Error(), nil)
 				continue
@@ -638,16 +664,50 @@ func runC09(ctx *common.Ctx) error {
 		_ = x.st.Delete(id)
 	}
 
+	// ---------- 2b. contents whose compressed frame is EXACTLY k blocks long (the last sealed block is a full one) ----------
+	for _, k := range []int{1, 2} {
+		d := x.exactFrameContent(k)
+		if d == nil {
+			res.Notes = append(res.Notes, fmt.Sprintf("exact-frame content k=%d: construction did not converge for this seed", k))
+			continue
+		}
+		id := x.newID()
+		canon := fmt.Sprintf("roundtrip compressed-length=%d*blockSize", k)
+		ctx.Current(canon, map[string]interface{}{"size": len(d), "frame": k * blockSz})
+		x.sit = situation{Scenario: canon, Input: map[string]interface{}{"content_size": len(d), "compressed_len": k * blockSz, "seed": ctx.Seed}, File: x.path(id)}
+		res.Evaluations++
+		res.Count("roundtrip:exact-frame")
+		res.Nontrivial(canon)
+		if err := x.st.Set(id, bytes.NewReader(d)); err != nil {
+			res.Fail(canon+" result=set-error", fmt.Sprintf("Set of a %d-byte content whose LZ4 frame is exactly %d bytes (%d full blocks): %v", len(d), k*blockSz, k, err), map[string]int{"size": len(d), "k": k})
+			_ = x.st.Delete(id)
+			continue
+		}
+		got, gerr := x.st.Get(id)
+		if gerr != nil || !bytes.Equal(got, d) {
+			res.Fail(canon+" result=mismatch", fmt.Sprintf("Get after Set: err=%v, %d bytes returned, %d stored", gerr, len(got), len(d)), map[string]int{"size": len(d), "k": k})
+		}
+		fi, _ := os.Stat(x.path(id))
+		cs := x.corruptions(k*blockSz, int(fi.Size()), thorough)
+		cs = append([]corr{{Kind: "intact", Where: "none"}}, cs...)
+		if err := x.corruptAndCheck(id, d, "exact-frame", "no", cs); err != nil {
+			return err
+		}
+		_ = x.st.Delete(id)
+	}
+
 	// ---------- 3. histories of Set/Get/Delete/List over several IDs against "last write wins" ----------
 	if err := x.histories(thorough); err != nil {
 		return err
 	}
 
 	// ---------- 4. concurrent readers and writers of one ID (runtime part: a search, not a proof) ----------
-	if err := x.concurrent(thorough); err != nil {
-		return err
+	var cerr error
+	x.scenarioWatchdog("concurrent readers and writers of one ID", 5*time.Minute, func() { cerr = x.concurrent(thorough) })
+	if cerr != nil {
+		return cerr
 	}
-	x.lockTableStress(thorough)
+	x.scenarioWatchdog("lock table stress", 10*time.Minute, func() { x.lockTableStress(thorough) })
 	if err := x.batchDeleteForced(); err != nil {
 		return err
 	}
@@ -680,6 +740,8 @@ func (x *h) histories(thorough bool) error {
 		if wrapped {
 			st = store.NewWriteControlledStore(base)
 		}
+		st = x.watch(st, "history")
+		x.sit = situation{Scenario: fmt.Sprintf("history #%d (write-controlled=%v, seed %d)", r, wrapped, ctx.Seed)}
 		nids := 2 + rng.Intn(4)
 		ids := make([]imap.InternalMessageID, nids)
 		bnd := x.boundaryIDs() // nil UUID, all-ff, an ID and its one-bit neighbours: IDs like any other
